@@ -349,6 +349,9 @@ func (cv CertValidity) toTimeStruct() (config.CertificateValidity, error) {
 				return out, errors.New(`config-v1: "until" date is not conforming to YYYY-MM-DD`)
 			}
 			out.IsSet = true
+			if !out.IsStatic {
+				out.RelativeEnd = cv.Until
+			}
 		} else if len(cv.Duration) != 0 {
 			if !durationRx.MatchString(cv.Duration) {
 				return out, errors.New(`config-v1: "duration" is not conforming to schema`)
@@ -363,6 +366,9 @@ func (cv CertValidity) toTimeStruct() (config.CertificateValidity, error) {
 
 			out.Until = out.From.AddDate(y, m, d)
 			out.IsSet = true
+			if !out.IsStatic {
+				out.RelativeEnd = cv.Duration
+			}
 		} else {
 			//both empty
 			out.Until = out.From.AddDate(DefaultValidityYears, 0, 0)
